@@ -16,21 +16,21 @@ def initSections (fwd : Int) (a : Args) : Py.R Rule := do
   let _ ← Gen.init_interval a.interval
   let wkst ← Gen.init_wkst fwd a.wkst
   let bysetpos ← Gen.init_bysetpos a.bysetpos
-  let d ← Gen.init_defaults a.freq a.dtstart a.bymonth a.bymonthday a.byyearday a.byeaster a.byweekno a.byweekday
-  let bymonth ← Gen.init_bymonth d.1
+  let (bm0, bmd0, bwd0) ← Gen.init_defaults a.freq a.dtstart a.bymonth a.bymonthday a.byyearday a.byeaster a.byweekno a.byweekday
+  let bymonth ← Gen.init_bymonth bm0
   let byyearday ← Gen.init_byyearday a.byyearday
   let byeaster ← Gen.init_byeaster a.byeaster
-  let md ← Gen.init_bymonthday d.2.1
+  let (md1, md2) ← Gen.init_bymonthday bmd0
   let byweekno ← Gen.init_byweekno a.byweekno
-  let wd ← Gen.init_byweekday a.freq d.2.2
+  let (wd1, wd2) ← Gen.init_byweekday a.freq bwd0
   let byhour ← Gen.init_byhour a.freq a.dtstart a.interval a.byhour
   let byminute ← Gen.init_byminute a.freq a.dtstart a.interval a.byminute
   let bysecond ← Gen.init_bysecond a.freq a.dtstart a.interval a.bysecond
   let timeset ← Gen.init_timeset a.freq byhour byminute bysecond
   pure { freq := a.freq, interval := a.interval, wkst := wkst, dtstart := { a.dtstart with us := 0 }, tz := a.tz,
-         count := a.count, untilDT := a.untilDT, bysetpos := bysetpos, bymonth := bymonth, bymonthday := md.1,
-         bynmonthday := md.2, byyearday := byyearday, byeaster := byeaster, byweekno := byweekno,
-         byweekday := wd.1, bynweekday := wd.2, byhour := byhour, byminute := byminute, bysecond := bysecond,
+         count := a.count, untilDT := a.untilDT, bysetpos := bysetpos, bymonth := bymonth, bymonthday := md1,
+         bynmonthday := md2, byyearday := byyearday, byeaster := byeaster, byweekno := byweekno,
+         byweekday := wd1, bynweekday := wd2, byhour := byhour, byminute := byminute, bysecond := bysecond,
          timeset := timeset }
 
 theorem initSections_eq (fwd : Int) (a : Args) : initSections fwd a = constructW fwd a := by
